@@ -102,7 +102,7 @@ static int build_mesh(REF_GRID *grid_ptr, REF_DBL **scalar_ptr, int *nn_ptr) {
   scalar = (REF_DBL *)malloc(sizeof(REF_DBL) * (size_t)nn);
   for (i = 0; i < nn; i++) {
     REF_INT node;
-    if (REF_SUCCESS != ref_node_add(ref_node, i, &node) || node != i) exit(5);
+    if (REF_SUCCESS != ref_node_add(ref_node, (REF_GLOB)(3 * i + 5), &node) || node != i) exit(5);
     for (c = 0; c < 3; c++) ref_node_xyz(ref_node, c, node) = h_f(h_w[3 + 3 * i + c]);
     for (c = 3; c < REF_NODE_REAL_PER; c++) ref_node_real(ref_node, c, node) = 0.0;
     scalar[i] = h_f(h_w[3 + 3 * (int)nn + i]);
@@ -132,7 +132,7 @@ static REF_INTERP make_interp(int node_per) {
   if (REF_SUCCESS != ref_grid_create(&from, ref_mpi)) exit(7);
   if (REF_SUCCESS != ref_grid_create(&to, ref_mpi)) exit(7);
   for (i = 0; i < node_per; i++) {
-    if (REF_SUCCESS != ref_node_add(ref_grid_node(from), i, &node)) exit(7);
+    if (REF_SUCCESS != ref_node_add(ref_grid_node(from), (REF_GLOB)(3 * i + 5), &node)) exit(7);
     for (c = 0; c < 3; c++) ref_node_xyz(ref_grid_node(from), c, node) = x[i][c];
     for (c = 3; c < REF_NODE_REAL_PER; c++) ref_node_real(ref_grid_node(from), c, node) = 0.0;
     nodes[i] = node;
@@ -178,7 +178,7 @@ int main(void) {
   if (REF_SUCCESS != ref_node_create(&kn, ref_mpi)) return 3;
   for (i = 0; i < 5; i++) {
     REF_INT node, c;
-    if (REF_SUCCESS != ref_node_add(kn, i, &node) || node != i) return 3;
+    if (REF_SUCCESS != ref_node_add(kn, (REF_GLOB)(3 * i + 5), &node) || node != i) return 3;
     for (c = 0; c < 3; c++) ref_node_xyz(kn, c, node) = 0.0;
     set_metric_identity(node);
   }
